@@ -22,8 +22,19 @@ let b2i b = if b then 1 else 0
 let showopts (l : n option list) : string =
   String.concat "," (List.map (function None -> "P" | Some x -> string_of_int (int_of_n x)) l)
 (* outcome: Ok -> "ok <v>", Err -> "err <e>", Panic -> "panic" *)
-let show_out (f : 'a -> string) (o : (unit, 'a) outcome) : string =
+let show_out (f : 'a -> string) (o : ('e, 'a) outcome) : string =
   match o with Ok v -> "ok " ^ f v | Err _ -> "err" | Panic _ -> "panic"
+
+let bools (s : string) : bool list =
+  if s = "-" then [] else List.init (String.length s) (fun i -> s.[i] = '1')
+let show_bools (l : bool list) : string =
+  if l = [] then "-" else String.concat "" (List.map (fun b -> if b then "1" else "0") l)
+let conv_name = function EAlignment -> "Alignment" | EPadding -> "Padding" | EZeroWidth -> "ZeroWidth"
+  | EDataSize -> "DataSize" | ESymbolSize -> "SymbolSize"
+let show_conv o = match o with
+  | Ok (e, s) -> Printf.sprintf "ok %d %s" (int_of_n (variant_index s)) (show_bools e)
+  | Err e -> "err " ^ conv_name e
+  | Panic _ -> "panic"
 
 let sym_of (i : int) = match ss_of_index (n_of_int i) with Some s -> s | None -> failwith "bad symbol index"
 
@@ -43,6 +54,14 @@ let dispatch (op : string) (a : string array) : string =
   | "gf_divrow" -> showopts (d_gf_divrow (n_of_int (int_of_string a.(0))))
   | "gf_misc" -> let (l, p) = d_gf_misc in showopts l ^ " " ^ showopts p
   | "generator" -> (match d_generator (n_of_int (int_of_string a.(0))) with Some g -> "ok " ^ shown g | None -> "panic")
+  | "place_table" -> show_out (fun (e, same) -> shown e ^ " " ^ string_of_int (b2i same)) (d_place_table (sym_of (int_of_string a.(0))))
+  | "place_write" -> show_out (fun (e, c) -> show_bools e ^ " " ^ shown c) (d_place_write (sym_of (int_of_string a.(0))) (nlist a.(1)))
+  | "place_read" -> show_out shown (d_place_read (sym_of (int_of_string a.(0))) (bools a.(1)))
+  | "bitmap" -> show_out (fun ((w, h), bits) -> Printf.sprintf "%d %d %s" (int_of_n w) (int_of_n h) (show_bools bits))
+                  (d_bitmap (sym_of (int_of_string a.(0))) (bools a.(1)))
+  | "bitmap_tag" -> let (w, bits) = d_bitmap_tag (sym_of (int_of_string a.(0))) in Printf.sprintf "ok %d %s" (int_of_n w) (shown bits)
+  | "from_bits" -> show_conv (d_from_bits (n_of_int (int_of_string a.(0))) (bools a.(1)))
+  | "from_bits_flip" -> show_conv (d_from_bits_flip (sym_of (int_of_string a.(0))) (bools a.(1)) (n_of_int (int_of_string a.(2))))
   | "spec_gmulrow" -> shown (d_spec_gmulrow (n_of_int (int_of_string a.(0))))
   | _ -> "unknown-op " ^ op
 
